@@ -12,6 +12,7 @@ import warnings
 from cv import gen, hist, observe, ops, oracles
 from cv.acc import h
 
+observe.COMPARE_OBJECTIVE_NAME = True
 PROPERTY = "C13"
 LEVEL = "fault_enumeration"
 RULE = (
@@ -118,6 +119,11 @@ def _del(df):
     return {",".join(sorted(ids)): [_r(g, 5), s] for ids, g, s in zip(df["ids"], df["growth"], df["status"])}
 
 
+def _sol(sol, nd=6):
+    """[status, objective value] - the value only where it is defined (status optimal)"""
+    return [sol.status, _r(sol.objective_value, nd) if sol.status == "optimal" else None]
+
+
 def analyses():
     import cobra.flux_analysis as fa
     from cobra.flux_analysis import reaction as far
@@ -142,13 +148,13 @@ def analyses():
     reg("find_blocked_reactions(open)", lambda m, rng, x: sorted(fa.find_blocked_reactions(m, open_exchanges=True, processes=1)))
     reg("find_essential_genes", lambda m, rng, x: sorted(g.id for g in fa.find_essential_genes(m, processes=x["p"])), True)
     reg("find_essential_reactions", lambda m, rng, x: sorted(r.id for r in fa.find_essential_reactions(m, processes=x["p"])), True)
-    reg("pfba", lambda m, rng, x: _r(fa.pfba(m).objective_value))
-    reg("pfba(fraction)", lambda m, rng, x: _r(fa.pfba(m, fraction_of_optimum=0.5).objective_value))
-    reg("moma(linear)", lambda m, rng, x: _r(fa.moma(m, linear=True).objective_value, 5))
-    reg("room(linear)", lambda m, rng, x: _r(fa.room(m, linear=True).objective_value, 4))
-    reg("room", lambda m, rng, x: _r(fa.room(m, linear=False).objective_value, 4))
-    reg("geometric_fba", lambda m, rng, x: _r(fa.geometric_fba(m).objective_value, 4))
-    reg("loopless_solution", lambda m, rng, x: _r(fa.loopless_solution(m).objective_value, 5))
+    reg("pfba", lambda m, rng, x: _sol(fa.pfba(m)))
+    reg("pfba(fraction)", lambda m, rng, x: _sol(fa.pfba(m, fraction_of_optimum=0.5)))
+    reg("moma(linear)", lambda m, rng, x: _sol(fa.moma(m, linear=True), 5))
+    reg("room(linear)", lambda m, rng, x: _sol(fa.room(m, linear=True), 4))
+    reg("room", lambda m, rng, x: _sol(fa.room(m, linear=False), 4))
+    reg("geometric_fba", lambda m, rng, x: _sol(fa.geometric_fba(m), 4))
+    reg("loopless_solution", lambda m, rng, x: _sol(fa.loopless_solution(m), 5))
     reg("single_gene_deletion", lambda m, rng, x: _del(fa.single_gene_deletion(m, processes=x["p"])), True)
     reg("single_reaction_deletion", lambda m, rng, x: _del(fa.single_reaction_deletion(m, processes=x["p"])), True)
     reg("double_gene_deletion", lambda m, rng, x: _del(fa.double_gene_deletion(m, processes=x["p"])), True)
@@ -156,6 +162,8 @@ def analyses():
     reg("single_reaction_deletion(linear moma)", lambda m, rng, x: {k: v[1] for k, v in _del(fa.single_reaction_deletion(m, x["rxns"], method="linear moma", processes=1)).items()})
     reg("single_gene_deletion(linear room)", lambda m, rng, x: {k: v[1] for k, v in _del(fa.single_gene_deletion(m, method="linear room", processes=1)).items()})
     reg("production_envelope", lambda m, rng, x: (lambda df: {"rows": len(df), "max": [_r(v, 4) for v in df["flux_maximum"]]})(fa.production_envelope(m, x["rxns"][:1], points=4)))
+    reg("production_envelope(objective)", lambda m, rng, x: (lambda df: {"rows": len(df), "max": [_r(v, 4) for v in df["flux_maximum"]]})(fa.production_envelope(m, x["rxns"][:1], objective=x["rxn"], points=4)))
+    reg("production_envelope(objective,carbon_sources)", lambda m, rng, x: (lambda df: {"rows": len(df)})(fa.production_envelope(m, x["rxns"][:1], objective=x["rxn_obj"], carbon_sources=x["rxns"][-1], points=3)))
     reg("assess", lambda m, rng, x: (lambda r: True if r is True else sorted(r))(far.assess(m, x["rxn"])))
     reg("assess_precursors", lambda m, rng, x: (lambda r: True if r is True else sorted(str(k) for k in r))(far.assess_precursors(m, x["rxn_obj"])))
     reg("assess_products", lambda m, rng, x: (lambda r: True if r is True else sorted(str(k) for k in r))(far.assess_products(m, x["rxn_obj"])))
@@ -210,6 +218,17 @@ def run_case(base, case, acc, A):
         aux["rxn"] = rng.choice(rids)
         aux["rxn_obj"] = model.reactions.get_by_id(aux["rxn"])
         aux["met"] = rng.choice(list(model.metabolites)) if len(model.metabolites) else None
+    if cls == "feasible" and rng.random() < 0.25:
+        # a user's own, permanent objective requirement: analyses that fix the objective
+        # internally (pfba, geometric_fba, fva with pfba_factor, summaries) reuse that
+        # constraint name and must hand the user's constraint back
+        from cobra.util import fix_objective_as_constraint
+
+        try:
+            fix_objective_as_constraint(model, fraction=rng.choice([0.25, 0.5]))
+            acc.count("models_with_permanent_fixed_objective_constraint")
+        except Exception:
+            pass
     names = sorted(A)
     if not rids:
         names = [n for n in names if n in ("optimize", "slim_optimize", "slim_optimize(None)", "fva", "find_blocked_reactions", "pfba", "model.summary", "single_reaction_deletion", "fastcc", "find_essential_reactions", "sample(achr)", "minimal_medium")]
@@ -256,7 +275,8 @@ def run_case(base, case, acc, A):
         if in_ctx:
             entry = observe.snapshot(m_use)
             m_use.__enter__()
-            hist.run_history(H, rng.randint(1, 3), ["reaction.bounds=", "reaction.knock_out", "model.objective_direction=", "reaction.objective_coefficient=", "gene.knock_out", "model.add_boundary", "reaction.add_metabolites"], lambda *a: True)
+            tr = hist.run_history(H, rng.randint(1, 3), ["reaction.bounds=", "reaction.knock_out", "model.objective_direction=", "reaction.objective_coefficient=", "gene.knock_out", "model.add_boundary", "reaction.add_metabolites"], lambda *a: True)
+            ident["edits_in_user_context"] = [[t.get("op"), t.get("args"), t.get("raised")] for t in (tr or [])]
             acc.count("calls_inside_user_context")
             if a2.get("rxn_obj") is not None and a2["rxn_obj"].model is not m_use:
                 in_ctx_skip = True
